@@ -11,6 +11,10 @@ RULES = {"C18.a", "C18.b", "C18.c", "C18.d"}
 
 def check(ctx):
     dot_rules.analyze(ctx, RULES)
+    # premise of the node drawing (`if id == 0 { start } else if accepting { .. }`): the automata that reach the renderer never
+    # have an accepting start state — accepting states are recorded for the closures of transition targets only (C02.d)
+    from . import closure_rules
+    closure_rules.analyze(ctx, {"C02.d"})
     # the property is observed on scanners obtained through build(): the cache must hand back the configuration's own compilation
     from . import adaptors
     adaptors.analyze(ctx, ("C18.e",))
